@@ -65,12 +65,36 @@ func c19Pred(users []c19User, anon bool, dn, pw string) bool {
 
 func c19Entries(users []c19User) []*gldap.Entry {
 	out := []*gldap.Entry{}
-	for _, u := range users {
+	for i, u := range users {
 		attrs := map[string][]string{"cn": {"x"}}
 		if u.PWs != nil {
 			attrs["password"] = append([]string{}, u.PWs...)
 		}
-		out = append(out, gldap.NewEntry(u.DN, attrs))
+		// the credentials are what the entry's exported fields show (GetAttributeValues), however the entry came to be
+		switch (i + len(users)) % 3 {
+		case 1: // a literal: Values only
+			e := &gldap.Entry{DN: u.DN}
+			for _, n := range []string{"cn", "password"} {
+				if v, ok := attrs[n]; ok {
+					e.Attributes = append(e.Attributes, &gldap.EntryAttribute{Name: n, Values: v})
+				}
+			}
+			out = append(out, e)
+		case 2: // built with other values, then the password values are assigned
+			stale := map[string][]string{"cn": {"x"}}
+			if u.PWs != nil {
+				stale["password"] = []string{"stale-" + u.DN, "pa"}
+			}
+			e := gldap.NewEntry(u.DN, stale)
+			for _, a := range e.Attributes {
+				if a.Name == "password" {
+					a.Values = append([]string{}, u.PWs...)
+				}
+			}
+			out = append(out, e)
+		default:
+			out = append(out, gldap.NewEntry(u.DN, attrs))
+		}
 	}
 	return out
 }
